@@ -30,4 +30,4 @@ Extraction Language OCaml.
 Extraction "score_model.ml"
   x_of_bits x_to_bits x_striped_b x_score_def x_generic_rows_into x_avx2_rows_into
   x_sse2_rows_into x_dispatch_rows_into x_score_with x_unstripe x_sc_get x_score_position
-  x_layout_ok check_value check_values check_C01 passes f32_terms f32_sum feqb seq_R.
+  x_layout_ok check_value check_values check_C01 check_same_results check_subrange passes f32_terms f32_sum feqb seq_R.
